@@ -40,8 +40,12 @@ ASSUMPTIONS = ["keys handed to the constructor are distinct (the library's docum
 def _history(rng, keys, absent, n_ops, lo=-9, lo_hi=None):
     ops = []
     for _ in range(n_ops):
-        t = rng.choice(["getvec", "getvec", "get1", "setscalar", "seteach", "fill", "contains", "items", "hs_contains", "zeros_like", "ones_like", "add_self", "eq_self", "eq_other", "add_perm", "eq_big", "like_set", "hs_contains1", "iadd_num", "iadd_table", "acc_like", "eq_keys"])
-        if t == "eq_keys":
+        t = rng.choice(["getvec", "getvec", "get1", "setscalar", "seteach", "fill", "contains", "items", "hs_contains", "zeros_like", "ones_like", "add_self", "eq_self", "eq_other", "add_perm", "eq_big", "like_set", "hs_contains1", "iadd_num", "iadd_table", "acc_like", "eq_keys", "add_const"])
+        if t == "add_const":
+            # t' + c or c + t' where c is a never-written table holding one shared (possibly fractional) value over the same keys and
+            # t' is the table itself, zeros_like(t) or ones_like(t): a NEW table whose values are the sums, read back in three ways
+            ops.append({"t": t, "left": rng.choice(["self", "zeros", "ones"]), "order": rng.choice(["tc", "ct"]), "c": rng.choice([0.5, 2, 1.5, 3, 0.25, 7])})
+        elif t == "eq_keys":
             # == against a table with the same values and the same bucket layout in which ONE key is another key of the same bucket
             ops.append({"t": t, "i": rng.randrange(len(keys))})
         elif t == "acc_like":
@@ -285,6 +289,13 @@ def run_impl(p):
                         v1 = np.array([o["base"] + 3 * i for i in range(len(keys))], dtype=np.int64)
                         v2 = v1.copy(); v2[o["i"]] += o["delta"]
                     return bool(HashTable(keys, v1, **kw) == HashTable(keys, v2, **kw))
+                if k == "add_const":
+                    base = t if o["left"] == "self" else (np.zeros_like(t) if o["left"] == "zeros" else np.ones_like(t))
+                    c = HashTable(keys, o["c"], **kw)
+                    r = (base + c) if o["order"] == "tc" else (c + base)
+                    vec = [float(v) for v in np.atleast_1d(r[keys])]
+                    dic = r.to_dict(); one = [float(np.atleast_1d(r[int(kk)])[0]) for kk in p["keys"]]
+                    return [vec, [float(dic[kd.type(kk)]) if kd.type(kk) in dic else float(dic[kk]) for kk in p["keys"]], one]
                 if k == "eq_keys":
                     k2 = _other_key(p, o)
                     if k2 is None or not isinstance(p["vals"], list):
@@ -398,6 +409,9 @@ def oracle(p):
             trace.append(o["delta"] == 0)
         elif k == "eq_other":
             trace.append(o["delta"] == 0)
+        elif k == "add_const":
+            vals = [float((d[q] if o["left"] == "self" else 0 if o["left"] == "zeros" else 1) + o["c"]) for q in p["keys"]]
+            trace.append([vals, vals, vals])
         elif k == "eq_keys":
             trace.append(None if _other_key(p, o) is None or not isinstance(p["vals"], list) else False)
     return {"k": "trace", "v": trace}
